@@ -1,117 +1,106 @@
-# executed by gen_manifest.py
+# executed by gen_manifest.py: claim(property, level text, level note / trusted base, technique, design reference)
 NOT_APPLICABLE = {}
 
-claim("C08",
-      "Breadth-first search over all histories of insert_temperature_interval calls (depth 2 quick / 3 thorough, request lists of length <=2 drawn from a table-derived alphabet of 30-50 temperatures: beyond both ends, 1/4-1/2-3/4 of every interval, existing rows, existing +-0.4 tol and +-3 tol, every order, duplicates) on 7-9 real tables, with every invariant of the property evaluated in every reached state against the original table as reference. Exhaustive below the bound; says nothing about longer histories or temperatures outside the alphabet.",
-      "Trusted: numpy interpolation as the reference for piecewise-linear curves; deepcopy of ProblemTable is faithful (plain numpy buffer). Row 0's interval width is not constrained.",
-      "explicit-state BFS over operation histories on the real ProblemTable, canonical-state de-duplication, invariant + reference model in every state",
-      "DESIGN.md section 4 C08")
+COMMON_NOTE = (" Decided on finite alphabets only (stated in the evidence file's assumptions); nothing is claimed between lattice points or beyond the stated sizes. "
+               "Every transition is an execution of the real code of /repo's working tree; violations are re-executed in a fresh interpreter before they are reported.")
 
 claim("C01",
-      "Exhaustive enumeration of every multiset of <=3 streams over a K=4 (quick) / K=5 (thorough) temperature lattice with two heat-capacity flows, contributions {0,d/2(,d)} and latent streams of either sign, executed on the real cascade seam, plus every multiset of <=2 (quick) / <=3 (thorough) streams crossed with every assignment to <=2 zones (flat, nested and suffix-clashing labels) through pinch_analysis_service; every zone's DI target at every level is compared with an independent rational-arithmetic cascade to 1e-6 of the total duty. A tolerance-edge family (bounds 4e-7..1e-4 apart) is included.",
-      "Reference model mc/ref.py (fractions.Fraction). Nothing is claimed for temperatures between lattice points or for more than 3 streams per problem.",
+      "Exhaustive enumeration of every multiset of <=3 streams over a K=4 (quick) / K=5 (thorough) temperature lattice (two heat-capacity flows, contributions {0,d/2(,d)}, latent streams of either sign) on the real cascade seam, and of every multiset of <=2 (quick) / <=3 (thorough) streams x every assignment to <=2 zones (flat, nested, suffix-clashing labels) through pinch_analysis_service, plus families that force the shortcuts visible in the code: identical same-named parallel streams, a zero-crossing lattice (0.0 and negative temperatures), small non-round duties, a latent stream next to a bound 0.05 / 0.005 K away, bounds 4e-7..1e-4 apart. Every zone's DI target at every level (object and serialised record) is compared with an independent rational-arithmetic cascade to 1e-6 of the total duty.",
+      "Reference model mc/ref.py (fractions.Fraction); zone membership reference = label-prefix rule." + COMMON_NOTE,
       "bounded-exhaustive input enumeration on the real code against an exact rational reference cascade",
-      "DESIGN.md section 4 C01")
+      "DESIGN.md sections 4 (C01) and 9")
 claim("C02",
-      "Exhaustive enumeration of stream multisets x zone labelings (<=3 zones) x 4-8 utility sets through pinch_analysis_service; every returned record (Direct Integration, Total Process, Total Site) is checked for first-law closure against sums over the input streams, and the listed utility duties for the same net balance.",
-      "Membership reference: a stream belongs to every zone whose path is a prefix of its label. Serialised records are aligned with the zone tree by order and name.",
+      "Exhaustive enumeration of stream multisets (<=2 over K=3/4, 3-stream sets) x zone labelings (<=3 zones, flat / nested / suffix-clashing) x 7-12 utility sets (defaults, isothermal, gliding, ladders, inside-range only, 'Both', levels closer to the range ends than their own contribution, one header within 1 K of two generation levels), with and without unit-operation targeting, through the service; every returned record (Direct Integration of every zone and generated operation, Total Process, Total Site) is checked for first-law closure against sums over the input streams, and its listed utility duties for the same net balance.",
+      "Serialised records are aligned with the zone tree by order and name; membership of generated operation zones is read from the zone itself. One known finding (sign of the default-cold-utility decision) is matched by a predicate on the input only." + COMMON_NOTE,
       "bounded-exhaustive input/configuration enumeration on the real service, algebraic oracle from the inputs",
-      "DESIGN.md section 4 C02")
+      "DESIGN.md sections 4 (C02), 5.2 and 9")
 claim("C03",
-      "All GCC shapes {0..3}^n (n<=5 quick, <=6 thorough) x all utility ladders of <=2/3 levels (every row, every mid-point, beyond both ends; isothermal and gliding; two contributions) through the real get_additional_GCCs + get_utility_targets, and lattice stream sets x zones x 8 utility sets through the service: sums equal the targets, duties non-negative, unreachable levels unused, Total Process record = per-utility sum of its zones.",
-      "At the table seam the utility temperatures are inserted as rows first, which is the pipeline's precondition (the grid is built from process and utility streams).",
+      "All GCC shapes {0..3}^n (n<=5 quick, <=6 thorough) x all utility ladders of <=2/3 levels (every row, every mid-point, beyond both ends; isothermal, gliding and mixed) through the real get_additional_GCCs + get_utility_targets, and lattice stream sets x zones x 12 utility sets (every explicit utility carrying a non-zero INPUT duty), also with unit-operation targeting on, through the service: duties sum to the targets, are non-negative, unreachable levels stay unused, the Total Process record lists the per-utility sum of its zones.",
+      "At the table seam the utility temperatures are inserted as rows first (the pipeline's precondition). Private seams are declared; if a refactoring removes them the sub-check is skipped and the service sub-check still decides." + COMMON_NOTE,
       "bounded-exhaustive shape x ladder enumeration on the real targeting code",
-      "DESIGN.md section 4 C03")
+      "DESIGN.md sections 4 (C03) and 9")
 claim("C04",
-      "Same enumeration as C03; oracle = exact pocket-free curve + exact sequential lowest-grade-first maxima (vertex enumeration of the one-variable LPs, rational arithmetic): every ladder must be feasible at the union of all breakpoints, isothermal ladders with distinct levels must carry exactly the sequential maximum; on the service seam additionally H_net_ut within [0, H_net_actual] on every row of the stored table.",
-      "Isothermal = the 0.1 K glide the service creates (modelled exactly). Optimality is demanded only of isothermal ladders, feasibility of all.",
+      "Same enumeration as C03; oracle = exact pocket-free curve + exact sequential lowest-grade-first maxima (vertex enumeration of the one-variable LPs in rational arithmetic, no solver): every ladder must be feasible at the union of all breakpoints; isothermal ladders with distinct levels must carry exactly the sequential maximum; on the service seam H_net_ut lies within [0, H_net_actual] on every row of the stored table of every zone and generated operation.",
+      "Isothermal = the 0.1 K glide the service creates (modelled exactly). Optimality is demanded only of isothermal ladders, feasibility of all." + COMMON_NOTE,
       "bounded-exhaustive enumeration against an exact closed-form optimum (no solver)",
-      "DESIGN.md section 4 C04")
-claim("C07",
-      "Every grand composite curve shape {0..3}^n for n<=7 (quick; n<=9 and {0..5}^7 thorough, 1.5 M shapes) on 2-3 temperature spacings through the real pocket-removal code, compared as FUNCTIONS with the exact pocket-free curve on the union of table rows and exact breakpoints; row at every closing temperature, zero between pinches, ends, load-profile monotonicity; plus the service seam on all 3-stream multisets.",
-      "Reference mc/ref.py PocketFree in rational arithmetic; service tables are compared in the rigorous interval form for their documented 4-dp rounding.",
-      "bounded-exhaustive shape enumeration against an exact reference curve",
-      "DESIGN.md section 4 C07")
-
+      "DESIGN.md sections 4 (C04) and 9")
 claim("C05",
-      "Every row of both the shifted and the real-temperature table of the DI target, for every multiset of <=2/3 lattice streams (K=4; thorough adds K=5 with three contributions and gliding inside-range utilities) with and without inside-range utility levels, against the exact heat content of the hot and cold streams below the row temperature (rigorous interval form for the documented 4-dp rounding): spans, net = cold - hot, non-negativity on the shifted scale, same Qh/Qc/Qr on both scales, interval widths, dH = CP.dT and dH = difference of the cumulative column. Rows inserted later are covered by a BFS over insertion histories (depth 2) that checks the cumulative identity in every state.",
-      "Exact reference mc/ref.py Cascade.below; row 0's width is unconstrained; offset of the cold curve = Qc.",
+      "Every row of the shifted and of the real-temperature table of the DI target for every multiset of <=2/3 lattice streams (contributions up to the lattice step, zero-crossing lattice, gliding inside-range utilities in the thorough tier) with and without inside-range utility levels, against the exact heat content of the hot and cold streams below the row temperature (rigorous interval form for the documented 4-dp rounding): spans, net = cold - hot, non-negativity on the shifted scale, same Qh/Qc/Qr on both scales, interval widths, dH = CP.dT and dH = difference of the cumulative column. Rows inserted later are covered by a BFS over insertion histories (depth 2) that checks the cumulative identity in every state.",
+      "Exact reference mc/ref.py Cascade.below; row 0's width is unconstrained; the documented offset of the cold curve is Qc." + COMMON_NOTE,
       "bounded-exhaustive enumeration against an exact reference + explicit-state BFS for inserted rows",
-      "DESIGN.md section 4 C05")
+      "DESIGN.md sections 4 (C05) and 9")
 claim("C06",
-      "Every residual vector over {0, +-5e-7, 2e-6, 1} of length 2..6 (quick) / 2..8 (thorough; 488 k vectors) through the real pinch_idx / pinch_temperatures, and every multiset of <=3 lattice streams (with and without utility levels beyond the range) through the service, against the exact zero set of the rational residual with the threshold rule; serialisation of equal pinches.",
-      "Whole-range-zero residuals are excluded (the property's clauses contradict each other there) and counted; one-row tables cannot arise.",
+      "Every residual vector over {0, +-5e-7, 2e-6, 1} of length 2..6 (quick) / 2..8 (thorough) through the real pinch_idx / pinch_temperatures, and every multiset of <=3 lattice streams (with and without utility levels beyond the range; 5-decimal temperatures; a lattice containing 0.0) through the service, against the exact zero set of the rational residual with the threshold rule; serialisation of equal pinches.",
+      "Whole-range-zero residuals are excluded (the property's clauses contradict each other there) and counted; one-row tables cannot arise." + COMMON_NOTE,
       "bounded-exhaustive enumeration against the exact zero set of a rational cascade",
-      "DESIGN.md section 4 C06")
-
-claim("C20",
-      "Every point of the lattice 8 arrangements x 2 label forms x passes {None,1,2,3,4} x capacity ratio (5 quick / 17 thorough values incl. 0 and 1) x NTU (8 / 29 values in (0,10]) through the real HX_Eff / HX_NTU: both round trips (effectiveness space absolute, NTU space scaled by conditioning), range, monotonicity along the NTU lattice, c=0 limit, counter-flow bound, agreement of the two label forms; LMTD on all ordered pairs of an 11-value end-difference alphabet (equal, 1e-7/1e-5/1e-3 apart, 1e-3..1e3) plus 60 non-positive pairs: bounds, symmetry, independent value, refusal.",
-      "Three genuine deviations are recorded as known findings and matched only when the observed value equals the exact shipped formula (truncated CrFUU series pinned by tests, c-independent CondEvap, textbook both-mixed relation which has a maximum).",
-      "bounded-exhaustive lattice enumeration of the real functions with algebraic oracles",
-      "DESIGN.md section 4 C20")
-
-claim("C17",
-      "clean_composite_curve on every polyline with strictly descending temperatures and H in {0..3}^n (n<=6 quick / 7 thorough), at scales 1 and 1e-3 and with single-point perturbations of 5e-7 / 2e-6: kept points are original points in order and the function through them (end-value extension) equals the original at every original point within 1e-6. get_piecewise_data_points on every polyline y in {0..3}^n x eps {0.1,0.5,1} x hot/cold plus five parametrised families of 11/50(/500) points in both listing orders: end points, order, point-to-polyline deviation <= eps, one-sided eps/10 rule.",
-      "Two genuine deviations from the one-sided rule are known findings matched by cause class (refinement skipped for <=10 breakpoints and result is the plain RDP subsequence; refinement ran and excess < eps/2).",
-      "bounded-exhaustive polyline enumeration with geometric oracles",
-      "DESIGN.md section 4 C17")
-
-claim("C19",
-      "Explicit-state BFS: (a) every sequence of <=3 (quick) / <=4 (thorough) assignments from a 14-event menu on three initial streams (hot, cold, latent), all invariants of the property evaluated in every reached state; (b) every sequence of <=4 / <=5 operations from a 17-event menu (add, add with clashing key, add_many with and without keys, remove present/absent, replace, three sort keys, concatenation, member attribute assignment) on a pool of three streams with clashing names, in lock step with a list reference, observing len / iteration / index / get_index / contains after every step. States are rebuilt by replaying the history on fresh objects and de-duplicated on a canonical key that includes the hidden dirty flag and cached order.",
-      "Reference = Python list of (key, object) with the documented rename rule; ties in the sort key may appear in any order.",
-      "explicit-state BFS over operation histories on real objects with a lock-step reference model",
-      "DESIGN.md section 4 C19")
-
-claim("C18",
-      "Every operating point of a lattice (evaporating temperature every 20 K inside the two-phase range with p_evap >= 1 kPa, lift {3,10,30,60} K, superheat/subcooling {0,5} K, efficiency {0.5,0.7,1}, duty {1,1000}) for 8 common refrigerants (quick, 5 k points) or every CoolProp pure/pseudo-pure fluid with a two-phase range > 40 K (thorough, 77 k points) through the real solve(): first law from totals and from state points, COP relation, entropy over compression and throttling, isenthalpic throttle, saturation pressures against an independent PropsSI call, emitted stream duties and monotonicity; and every sequence of <=3 stream-set requests (39 orders) on one solved cycle against the same request on a freshly solved cycle (H-mode, replayed on fresh objects).",
-      "CoolProp is the trusted property source (tolerances 1e-7..1e-6 relative). Findings for retrograde fluids and pseudo-pure blends are known findings matched by independently computed cause predicates (throttle outlet superheated / wet compressor discharge / pseudo-pure surrogate).",
-      "bounded-exhaustive operating-point enumeration + exhaustive request-order histories on the real cycle object",
-      "DESIGN.md section 4 C18")
-
+      "DESIGN.md sections 4 (C06) and 9")
+claim("C07",
+      "Every grand composite curve shape {0..3}^n for n<=7 (quick; n<=9 and {0..5}^7 thorough, 1.6 M shapes) on 3-4 temperature spacings (one symmetric about 0.0) through the real pocket-removal code, compared as FUNCTIONS with the exact pocket-free curve on the union of table rows and exact breakpoints; row at every closing temperature, zero between pinches, ends, load-profile monotonicity; plus the service seam on all 3-stream multisets.",
+      "Reference mc/ref.py PocketFree in rational arithmetic; service tables are compared in interval form for their 4-dp rounding." + COMMON_NOTE,
+      "bounded-exhaustive shape enumeration against an exact reference curve",
+      "DESIGN.md sections 4 (C07) and 9")
+claim("C08",
+      "Breadth-first search over histories of insert_temperature_interval calls (two calls deep quick, three thorough = 13.9 M transitions) on 7-10 real tables (one with a 0.5 mK interval, some with only some columns populated): request lists of length <=2 from a table-derived alphabet (beyond both ends; 1/4, 1/2, 3/4 and 1/2+0.4 tol of every interval; every row and row +-0.4 / +-0.8 / +-3 tol; every order, duplicates) plus all ordered triples inside each interval and two long mixed requests; every invariant of the property is evaluated in every reached state against the original table as reference.",
+      "Trusted: numpy interpolation as the reference for piecewise-linear curves; deepcopy of ProblemTable is faithful. Row 0's width is not constrained. Which of two requests within tolerance of each other is kept is not specified." + COMMON_NOTE,
+      "explicit-state BFS over operation histories on the real ProblemTable, canonical-state de-duplication, invariant + reference model in every state",
+      "DESIGN.md sections 4 (C08) and 9")
 claim("C09",
-      "Every multiset of 2-3 (quick) / 2-4 (thorough) lattice streams x every partition into 2-3/4 zones x 4 utility sets (defaults; intermediate 'Both' level inside the range; one that cannot help; two intermediate levels) x label form (flat, nested, explicit zone tree) through pinch_analysis_service: Total Process = sum of the zones' DI targets value by value and utility by utility, DI_site <= TS <= TZ for Qh and Qc, Qr_TS = Qr_TZ + (Qh_TZ - Qh_TS), serialised records equal the target objects.",
-      "Tolerance 1e-6 of the total duty. The run counts how many cases actually show inter-zone recovery (TS < TZ) so that the bracketing is not checked vacuously.",
+      "Every multiset of 2-3 (quick) / 2-4 (thorough) lattice streams x every partition into 2-3/4 zones x 5 utility sets (defaults; an intermediate 'Both' level; one that cannot help; two intermediate levels; a header within 1 K of two generation levels) x label form (flat, nested, explicit zone tree), plus same-name and unit-operation-targeting variants, through the service: Total Process = sum of the zones' DI targets value by value and utility by utility, DI_site <= TS <= TZ for Qh and Qc, Qr_TS = Qr_TZ + (Qh_TZ - Qh_TS), serialised records equal the target objects.",
+      "Tolerance 1e-6 of the total duty. The run counts how many cases actually show inter-zone recovery (TS < TZ)." + COMMON_NOTE,
       "bounded-exhaustive input/configuration enumeration on the real service with algebraic oracles",
-      "DESIGN.md section 4 C09")
-
+      "DESIGN.md sections 4 (C09) and 9")
 claim("C10",
-      "Every multiset of <=4 (quick) / <=5 (thorough) labels from an 11-label alphabet (flat names, nested paths, labels that are prefixes/suffixes of each other, the generated unit-operation name O1 and a path through it, an untrimmed name, the root name) x {distinct, duplicate} stream names x 5 zone-tree forms (none, flat, nested, equal names at two depths, types given by depth) through prepare_problem, and the <=2/3-label subset through the full service: every input stream (traced by a unique duty) is in exactly one leaf, exactly once in each ancestor and nowhere else; per-zone counts and duties equal those of the labelled streams; utilities are per-zone independent objects (identity + mutate-one/observe-others).",
-      "With a user tree only labels that resolve to exactly one node are enumerated. One known finding (stream placed in a zone that also has sub-zones is dropped) is matched by an independently computed cause predicate.",
+      "Every multiset of <=4 (quick) / <=5 (thorough) labels from a 15-label alphabet (flat names, nested paths, prefixes/suffixes of each other, the generated name O1 and a path through it, untrimmed and blank-padded components, empty components, the root name and a root-prefixed path) x {distinct, duplicate, generated-key-clashing} stream names x 6 zone-tree forms through prepare_problem, and the <=2/3-label subset through the full service: every input stream (traced by a unique duty) is in exactly one leaf, exactly once in each ancestor and nowhere else; per-zone counts and duties equal those of the labelled streams; utilities are per-zone independent objects.",
+      "With a user tree only labels that resolve to exactly one node are enumerated. One known finding (a stream placed in a zone that also has sub-zones is dropped) is matched by an independently computed predicate." + COMMON_NOTE,
       "bounded-exhaustive label/tree enumeration on the real zone-tree construction",
-      "DESIGN.md section 4 C10")
-
+      "DESIGN.md sections 4 (C10), 5.2 and 9")
 claim("C11",
-      "Explicit-state search over call histories, executed in long-lived worker processes so that any state the library keeps between calls shows: (a) every sequence of <=2 (quick) / <=3 (thorough) pinch_analysis_service calls over a 15-event menu (5 problems chosen to collide on library state x dict / freshly validated model / ONE model object reused) plus every sequence of <=3 / <=4 calls over the 8 events that carry state; (b) every sequence of <=4 / <=5 PinchProblem load/target/export calls over 5 events. After every call: output == output of the same problem computed in a fresh interpreter (canonical JSON incl. the set of graph keys), caller's input == its snapshot, every earlier output == its snapshot, digest of the library's module state (data globals, every function's defaults, class attributes) unchanged. States reported = distinct module digests reached (1 on a pure library).",
-      "Fresh-interpreter references are computed once per run, one subprocess per problem. Every violation found in a worker is re-executed in a fresh interpreter by the engine and reported either way.",
+      "Explicit-state search over call histories executed in long-lived workers: (a) every sequence of <=2/3 pinch_analysis_service calls over a 17-event menu (5 problems chosen to collide on library state x dict / fresh model / ONE reused model, two as dict-of-model-instances) plus every sequence of <=3/4 calls over the 9 state-carrying events; (b) every sequence of <=3/4 PinchProblem calls over 6 events (two JSON files, a model, a CSV pair, target, export) plus <=4/5 over the 4 core events. After every call: output == output of the same problem in a fresh interpreter / fresh wrapper, caller's input == its snapshot, every earlier output and the problem tables of every returned zone tree == their snapshots, digest of the library's module state unchanged.",
+      "Fresh-interpreter references are computed once per run, one subprocess per problem. States reported = distinct module digests reached (1 on a pure library)." + COMMON_NOTE,
       "explicit-state BFS over call histories on the real library with a fresh-process differential oracle and a module-state digest",
-      "DESIGN.md section 4 C11")
-
+      "DESIGN.md sections 4 (C11) and 9")
 claim("C12",
-      "For every base problem (lattice stream multisets of <=3 streams x <=2 zones x {no utilities, a 4-level ladder with distinct levels}) ALL twins of the transformation group are generated and run through the service: every permutation of the stream list, reversed utility list, the series split of every stream at every interior lattice point, a 1/4+3/4 parallel split of every stream, every renaming/reordering of the zones from a 3-name alphabet, translations {+37.5,-100,+1000}, duty scalings {x0.25,x3,x100}, mirroring of the temperature axis with hot/cold swap; the pairwise relation is checked on every record (Qh, Qc, Qr, utility duties by name, pinch temperatures) and on the graph data (curves compared as polylines, series by series, within the 0.01 display tolerance).",
-      "Graph data are not compared under mirroring (the enthalpy offsets of the curves are not related by a simple map).",
+      "For every base problem (lattice stream multisets of <=3 streams x <=2 zones x {no utilities, a 4-level ladder}; a zero-crossing lattice with a gliding utility ending at 0.0 and with a header entered as separate hot and cold utilities) ALL twins of the transformation group are run through the service: every permutation, reversed utility list, series split of every stream at every interior lattice point, 1/4+3/4 parallel split, every zone renaming/reordering, translations {+37.5,-100,+1000,+0.1,+273.15}, duty scalings {x0.25,x3,x100}, mirroring with hot/cold swap; the pairwise relation is checked on every record (Qh, Qc, Qr, utility duties by name, pinches) and on the graph data (curves compared as polylines within the display tolerance).",
+      "Graph data are not compared under mirroring." + COMMON_NOTE,
       "bounded-exhaustive metamorphic exploration: all generators of the transformation group applied to all base problems",
-      "DESIGN.md section 4 C12")
-
-claim("C14",
-      "Deviation-bounded exhaustive exploration: 18 named degenerate-but-legal input shapes (single stream of each kind, only hot, only cold, latent only, zero contributions, duplicate names in one and in two zones, unused and inactive utilities, a utility inside the range, balanced problem, value-with-unit numbers, explicit zone tree, nested labels, three zones) x ALL option assignments with <=1 (quick) / <=2 (thorough) deviations from the defaults over 7 wired boolean options and 10 numeric end-of-range values, plus every multiset of <=2 lattice streams x {defaults, each boolean flipped}: no exception, output re-validates and round-trips through JSON, all numbers finite, one DI record per zone of the returned tree, every reported temperature (pinch temperatures of every record, graph ordinates) inside the input envelope, second identical call identical.",
-      "Excluded and stated: DO_TURBINE_WORK (configuration commented out), the two heat-pump targeting options (stochastic optimisers), area targeting with non-positive contributions (C15's precondition). One known finding: DO_INDIRECT_PROCESS_TARGETING=True raises for every input.",
-      "deviation-bounded exhaustive configuration x input-shape enumeration on the real service (bound iterated 0,1,2)",
-      "DESIGN.md section 4 C14")
-
+      "DESIGN.md sections 4 (C12) and 9")
 claim("C13",
-      "Every lattice problem (multisets of <=2/3 streams x <=2 zones x {no utilities, 4-level ladder}) x all 8 assignments of the graph-affecting options (balanced curves, vertical GCC, assisted transfer) through the service; for every record: exactly one graph set keyed and named by the record with the documented graph types (DI: CC, SCC, BCC iff balanced, GCC with its five series, GCC with heat pump; Total Process: none; Total Site: TSP, SUGCC), and for every emitted series against the table slice stored on the target: every point on the table curve, every table row of the non-flat extent recovered by interpolation through the emitted points (anisotropic 0.011 tolerance), segment classification = sign of the enthalpy change, extents = duties / Qc offset / Qh and Qc at the GCC ends, no series for an uncomputed column, no NaN.",
-      "The stored table slices are the reference (their own faithfulness to the streams is C05/C07).",
+      "Every lattice problem (multisets of <=2/3 streams x <=2 zones x {no utilities, 4-level ladder}, a tiny-duty family) x all 8 assignments of the graph-affecting options through the service; for every record: exactly one graph set keyed and named by the record with the documented graph types, and for every emitted series against the table slice stored on the target: every point on the table curve, every table row of the non-flat extent recovered by interpolation through the emitted points, segment classification = sign of the enthalpy change, extents = duties / Qc offset / Qh and Qc at the GCC ends, no series for an uncomputed column, no NaN.",
+      "The stored table slices are the reference (their own faithfulness to the streams is C05/C07)." + COMMON_NOTE,
       "bounded-exhaustive input x configuration enumeration on the real service with a geometric curve-equivalence oracle",
-      "DESIGN.md section 4 C13")
-
+      "DESIGN.md sections 4 (C13) and 9")
+claim("C14",
+      "Deviation-bounded exhaustive exploration: 21 named degenerate-but-legal input shapes x ALL option assignments with <=1 (quick) / <=2 (thorough) deviations from the defaults over 7 wired boolean options and 10 numeric end-of-range values, plus every multiset of <=2 lattice streams x {defaults, each boolean flipped}: no exception, output re-validates and round-trips through JSON, all numbers finite, one DI record per zone of the returned tree, every reported temperature inside the input envelope, second identical call identical.",
+      "Excluded and stated: DO_TURBINE_WORK, the two heat-pump targeting options (stochastic optimisers), area targeting with non-positive contributions. One known finding: DO_INDIRECT_PROCESS_TARGETING=True raises for every input." + COMMON_NOTE,
+      "deviation-bounded exhaustive configuration x input-shape enumeration on the real service (bound iterated 0,1,2)",
+      "DESIGN.md sections 4 (C14), 5.2 and 9")
 claim("C15",
-      "Every multiset of <=2 (quick) / <=3 (thorough) lattice streams containing both kinds (K=4, contribution d/2, latent streams included) x 2 film-coefficient pairs x {default utilities, isothermal utilities beyond the range} through the service with area targeting: balanced composite spans equal, area target finite and positive and equal (1e-6 relative) to an independent Bath-formula reference built from the input streams and the assigned utility duties at real temperatures, capital cost = N(a + b(A/N)^c), annualised cost / capital cost is a capital-recovery factor whose discounted annuities sum to one. The cost functions are additionally swept over a parameter lattice (4 N x 12 (a,b,c) x 3 rates x 4 lives x 5 areas) for the law, the annuity identity and monotonicity in area.",
-      "Reads the EnergyTarget attributes 'Area target', 'Units target', 'Capital cost target', 'Annualised capital cost target' as the property states. The exchanger-count target is only required to be positive (no independent definition is given in the property).",
+      "Every multiset of <=2/3 lattice streams with both kinds x 2 film-coefficient pairs x {default, isothermal utilities} (one variant with non-integral cost options) through the service with area targeting: balanced spans equal, area finite, positive and equal (1e-6 relative) to an independent Bath-formula reference rebuilt from the input streams and the assigned utility duties, capital cost = N(a + b(A/N)^c) and the capital-recovery factor for the parameters the CALLER supplied; the same enumeration on a 7-decimal instantiation; the cost functions swept over a parameter lattice.",
+      "Reads the EnergyTarget attributes named in the property. One known finding (area targeting raises when inputs carry more than 6 decimals) is matched by a predicate on the input." + COMMON_NOTE,
       "bounded-exhaustive input x configuration enumeration against an independent closed-form reference",
-      "DESIGN.md section 4 C15")
-
+      "DESIGN.md sections 4 (C15), 5.2 and 9")
 claim("C16",
-      "(a) Every enumerated problem (lattice multisets of <=2 streams x 2 zone namings with printable names x {no utilities, isothermal pair, 'Both' level}) through 10 channels - service on dict / validated model / value-with-unit dict / re-read JSON, PinchProblem with model, JSON file, JSON via the constructor, CSV directory, CSV pair, XLSX workbook with the template sheets (files written by the harness) - all results equal modulo the project name. (b) H-mode: every sequence of <=4 (quick) / <=5 (thorough) PinchProblem calls from {load a, load b, target, export}: results are those of the currently loaded problem and the service (counted through a harness-side wrapper) is called exactly when no cached result exists. (c) _unique_sheet_name on every sequence of <=3/4 names from a 12-name tricky alphabet and real exported workbooks for all 45 pairs of 9 tricky zone names read back with openpyxl: unique (as Excel compares, i.e. case-insensitively, and exactly), 1..31 characters, none of : \\ / ? * [ ].",
-      "Names the readers rewrite by design (digits-only, dots) are outside the alphabet. The project (root zone) name is derived from the file name by the wrapper and is normalised before comparison.",
+      "(a) Every enumerated problem (names with spaces, '/', '#', ',', ';', quotes) through 10 channels - service on dict / model / value-with-unit / re-read JSON, PinchProblem with model, JSON, JSON via the constructor, CSV directory, CSV pair, XLSX - all results equal modulo the project name. (b) Every sequence of <=4/5 PinchProblem calls from {load a, load b, target, export, rewrite the file behind a}: results are those of the problem the loaded file held at load time and the service (counted through a harness-side wrapper) is called exactly when no cached result exists. (c) _unique_sheet_name on every sequence of <=3/4 names from a 12-name tricky alphabet and runs of 9..12 and 101 equal names, and real exported workbooks for all 45 pairs of 9 tricky zone names: unique (case-insensitively and exactly), 1..31 characters, none of : \\ / ? * [ ].",
+      "Names the readers rewrite by design (digits-only, dots) are outside the alphabet. _unique_sheet_name is a declared private seam (skipped if refactored away; the workbook sub-check is public)." + COMMON_NOTE,
       "bounded-exhaustive channel x input enumeration (differential) + explicit-state search over wrapper call histories + exhaustive name-sequence enumeration",
-      "DESIGN.md section 4 C16")
+      "DESIGN.md sections 4 (C16) and 9")
+claim("C17",
+      "clean_composite_curve on every polyline with strictly descending temperatures and H in {0..3}^n (n<=6/7) at scales 1 and 1e-3 with enthalpy and temperature perturbations, and on finely sampled 101/401-point curves with spans 0.14..5000; get_piecewise_data_points on every polyline y in {0..3}^n x eps {0.1,0.5,1} x hot/cold (also as integer arrays) plus five parametrised families of 11/50(/500) points in both listing orders: kept points are original points in order, the function through them equals the original within 1e-6, end points, order, point-to-polyline deviation <= eps, one-sided eps/10 rule.",
+      "Two deviations from the one-sided rule are known findings matched by cause class." + COMMON_NOTE,
+      "bounded-exhaustive polyline enumeration with geometric oracles",
+      "DESIGN.md sections 4 (C17), 5.2 and 9")
+claim("C18",
+      "Every operating point of a lattice (evaporating temperature every 20 K inside the two-phase range with p_evap >= 1 kPa, lift {3,10,30,60} K, superheat/subcooling {0,5} K, efficiency {0.5,0.7,1}, duty {1,1000}) for 8 common refrigerants (quick) or every CoolProp fluid with a two-phase range > 40 K (thorough, 77 k points): first law from totals and from state points, COP relation, entropy over compression and throttling, isenthalpic throttle, saturation pressures against an independent PropsSI call, emitted stream duties and monotonicity; every sequence of <=3 stream-set requests (39 orders) and a second solve on a used object against fresh objects.",
+      "CoolProp is the trusted property source. Findings for retrograde fluids and pseudo-pure blends (thorough tier) are matched by independently computed cause predicates." + COMMON_NOTE,
+      "bounded-exhaustive operating-point enumeration + exhaustive request-order histories on the real cycle object",
+      "DESIGN.md sections 4 (C18), 5.2 and 9")
+claim("C19",
+      "Explicit-state BFS: (a) every sequence of <=3/4 assignments from a 15-event menu on four initial streams (hot, cold, latent, unloaded utility), all invariants evaluated in every reached state; (b) every sequence of <=4/5 operations from a 17-event menu (add, add with clashing key, add_many with and without keys, remove present/absent, replace, three sort keys, concatenation, member attribute assignment) on a pool of three streams with clashing names, in lock step with a list reference, observing len / iteration / index / get_index / contains after every step.",
+      "Reference = Python list of (key, object) with the documented rename rule; ties in the sort key may appear in any order; supply == target with zero duty is outside the alphabet." + COMMON_NOTE,
+      "explicit-state BFS over operation histories on real objects with a lock-step reference model",
+      "DESIGN.md sections 4 (C19) and 9")
+claim("C20",
+      "Every point of the lattice 8 arrangements x 2 label forms x passes {None,1,2,3,4} x capacity ratio (5/17 values incl. 0 and 1) x NTU (8/29 values in (0,10]) through HX_Eff / HX_NTU: both round trips, range, monotonicity, c=0 limit, counter-flow bound, agreement of the label forms; the reverse direction on a fixed effectiveness grid with all arrangements walked by ONE worker in both orders (anything remembered between calls shows); LMTD on all ordered pairs of an 11-value end-difference alphabet plus 60 non-positive pairs.",
+      "Three genuine deviations are known findings matched only when the observed value equals the exact shipped formula." + COMMON_NOTE,
+      "bounded-exhaustive lattice enumeration of the real functions with algebraic oracles",
+      "DESIGN.md sections 4 (C20), 5.2 and 9")
